@@ -970,6 +970,64 @@ def _run(ctx, torch):
                       dict(call="g.to_grid(g.from_grid(s)) for s = g.to_grid(F)", config=cfg))
         else:
             first_nonexact[f"lmax={lmax}"] = dict(resolution=r, aspect=asp, roundtrip_error=rt, gram_error=orth)
+    # ---- rational (non-integer) aspect ratios: na = round(2 * aspect_ratio * resolution) is ROUNDED (ties to even)
+    # and qw = _quadrature_weights(nb // 2) * nb**2 / na**2 uses the rounded na.  Model: so3ResQ / so3QwOf take the
+    # CONSTRUCTOR arguments (resolution, aspect = p/q), so a change of how the real code derives qw from them shows.
+    from fractions import Fraction
+    ASPECTS = [Fraction(1), Fraction(2), Fraction(3, 2), Fraction(13, 10), Fraction(9, 10), Fraction(27, 10),
+               Fraction(5, 4), Fraction(7, 4), Fraction(5, 2)]
+    rat_res = {1: (2, 3, 5, 6, 7), 2: (3, 5)}
+    if thorough:
+        rat_res = {0: (1, 2, 3), 1: (2, 3, 4, 5, 6, 7, 9), 2: (3, 4, 5, 6, 7), 3: (4, 6, 7)}
+    rounded_cases = 0
+    for lmax, rs in sorted(rat_res.items()):
+        for r in rs:
+            for fa in ASPECTS:
+                asp = int(fa) if fa.denominator == 1 else float(fa)
+                cfg = dict(lmax=lmax, resolution=r, aspect=asp, aspect_p=fa.numerator, aspect_q=fa.denominator)
+                stt, g = status_of(lambda: o3.SO3Grid(lmax, r, aspect_ratio=asp))
+                if stt != "ok":
+                    st.disagree("so3", f"SO3Grid({lmax},{r},aspect_ratio={asp})", stt, "expected to construct", float("inf"))
+                    continue
+                nb, na, dim = g.res_beta, g.res_alpha, g.D.shape[-1]
+                is_rounded = (2 * fa * r).denominator != 1
+                rounded_cases += int(is_rounded)
+                ctx.case(("so3-aspect", lmax, r, str(fa)), nontrivial=True)
+                ctx.count("so3:aspect=" + str(fa))
+                ctx.count("so3:2*aspect*resolution-" + ("rounded" if is_rounded else "integer"))
+                t = f"so3resq {r} {fa.numerator} {fa.denominator}"
+                B.add(t, lambda o, real=f"ok {nb} {na}", t=t: cmp_exact(st, "so3", t, o, real), 1.0)
+                t = f"so3qwq {r} {fa.numerator} {fa.denominator}"
+                B.add(t, lambda o, v=tnp(g.qw), t=t, cfg=cfg: cmp_floats(st, "so3", t, o, "ok", v, 1e-14, cfg, scaled=False), 1.0)
+                if g.res_gamma != na or tuple(g.D.shape) != (na, nb, na, dim):
+                    st.disagree("so3", f"SO3Grid({lmax},{r},{asp}).D.shape", tuple(g.D.shape), (na, nb, na, dim), float("inf"))
+                exact = r >= lmax + 1 and na >= 2 * lmax + 1
+                X = torch.eye(dim)
+                Fg = g.to_grid(X)
+                back = g.from_grid(Fg)
+                if na * nb * na * dim <= 40000 and is_rounded:
+                    Db = bits(tnp(g.D))
+                    tag = f"lmax={lmax} resolution={r} aspect={fa}"
+                    B.add(f"so3to {dim} {nb} {na} {dim} 0 {Db} {bits(tnp(X))}",
+                          lambda o, v=tnp(Fg), tag=tag, cfg=cfg: cmp_floats(st, "so3", "so3to " + tag, o, "ok", v, 1e-12, cfg), 6.0 * na * nb * na * dim * dim)
+                    B.add(f"so3from {dim} {nb} {na} {dim} 0 {Db} {bits(tnp(Fg))}",
+                          lambda o, v=tnp(back), tag=tag, cfg=cfg: cmp_floats(st, "so3", "so3from " + tag, o, "ok", v, 1e-11, cfg), 6.0 * na * nb * na * dim * dim)
+                if not exact:
+                    continue
+                Gram = torch.einsum("abci,abcj,b->ij", g.D, g.D, g.qw)
+                orth = float((Gram - torch.eye(dim)).abs().max())
+                worth = max(worth, orth)
+                st.oracle("WignerGridOrth", orth, 1e-12, "hypothesis/WignerGridOrth", "hyp", cfg)
+                rt = float((back - X).abs().max())
+                st.oracle("SO3Grid:from.to=id", rt, 1e-10, "SO3Grid/roundtrip", "so3",
+                          dict(call="g = SO3Grid(lmax, resolution, aspect_ratio=aspect); g.from_grid(g.to_grid(eye))", config=cfg,
+                               res_beta=nb, res_alpha=na, expected_scale_if_qw_uses_unrounded_na=float(Fraction(na) / (2 * fa * r)) ** 2))
+                Fr = torch.tensor(rnd(2 * dim)).reshape(2, dim)
+                sig = g.to_grid(Fr)
+                e = float((g.to_grid(g.from_grid(sig)) - sig).abs().max())
+                st.oracle("SO3Grid:to.from=id-on-bandlimited", e, 1e-10, "SO3Grid/roundtrip-bandlimited", "so3",
+                          dict(call="g.to_grid(g.from_grid(s)) for s = g.to_grid(F)", config=cfg))
+    ctx.obligation("coverage:so3-rounded-aspect-ratios-exercised", rounded_cases >= 8, f"{rounded_cases} configurations with non-integer 2*aspect*resolution")
     # where exactness starts (real code only, cheap): resolution = lmax is the first non-exact one
     for lmax in (1, 2, 3):
         for asp in (1, 2):
@@ -1042,7 +1100,7 @@ def _run(ctx, torch):
         "Float model vs float64 code compared with tolerance (1e-12 forward, 1e-13 buffers, 1e-14/1e-15 weights and grids), theorems are about the ℝ instance of the same definitions",
         "the model is one batch element at a time; batch shapes are checked on the real code only (oracle batch-shapes)",
         "direct evaluation uses the real o3.spherical_harmonics (C05) as the reference Y^l",
-        "SO3Grid: integer aspect_ratio only; S2Activation/SO3Activation are checked on the real code only (the model has S2Activation.forward and the theorem for linear activations, not run by the driver; polynomial equivariance is oracle-checked only)",
+        "SO3Grid: aspect_ratio modelled as an exact rational p/q with python's round-half-even (that the float product 2*aspect_ratio*resolution rounds the same way is compared per configuration); S2Activation/SO3Activation are checked on the real code only (the model has S2Activation.forward and the theorem for linear activations, not run by the driver; polynomial equivariance is oracle-checked only)",
         "rfft with res = 0 and irfft with sm = 0 (empty tensors) are not compared",
     ]
 
@@ -1092,7 +1150,8 @@ def activations(ctx, st, torch, o3):
     ctx.notes["normalize2mom_identity_cst"] = sorted(csts)
     ctx.notes["normalize2mom_note"] = ("normalize2mom estimates <f(z)^2> from 1e6 samples of a generator seeded with 0 (deterministic); for the identity "
                                        "it gives cst = 1.00111 (> the 1e-4 window of _is_id), so S2Activation(identity) = 1.00111 * input, not input")
-    for (lmax, r, asp) in [(1, 2, 2), (2, 3, 1), (1, 3, 1)] + ([(2, 3, 2), (3, 4, 1)] if thorough else []):
+    for (lmax, r, asp) in [(1, 2, 2), (2, 3, 1), (1, 3, 1), (1, 6, 1.3), (1, 7, 0.9), (1, 3, 2.7), (2, 5, 1.75), (1, 3, 1.25), (1, 4, 1.5)] + (
+            [(2, 3, 2), (3, 4, 1), (2, 6, 1.3), (3, 7, 0.9), (2, 5, 2.7), (3, 6, 1.25)] if thorough else []):
         stt, m = status_of(lambda: SO3Activation(lmax, lmax, ident, r, aspect_ratio=asp))
         ctx.case(("so3act-identity", lmax, r, asp))
         if stt != "ok":
